@@ -137,32 +137,11 @@ Proof. exact (intersect_spec p1 s1 p2 s2). Qed.
 Print Assumptions C12_grid_intersect_exact.
 
 (* every count()/while loop of grid_layout step 1 terminates within the fuel the model computes, for all validated items
-   (integers non-zero, spans >= 1), both flow axes, sparse and dense *)
+   (spans >= 1), both flow axes, sparse and dense: OutOfFuel is the only outcome besides Ok *)
 Theorem C12_grid_place_fuel (tcols trows : Z) (colflow dense : bool) (items : list item) :
   valid_items items -> grid_place tcols trows colflow dense items <> OutOfFuel.
 Proof. exact (grid_place_fuel tcols trows colflow dense items). Qed.
 Print Assumptions C12_grid_place_fuel.
-
-(* ... except the loop that reads the stale `first_i` (sparse, flow axis `span n`, other axis a line): when the model
-   answers Hang that loop returns None for EVERY fuel: a real divergence of the implementation *)
-Theorem C12_grid_hang_is_divergence (colflow dense : bool) (is1 is2 if1 : Z) (st : pstate) (i : nat) (it : item) :
-  item_valid it = true -> get_placement (fst_s colflow it) (fst_e colflow it) = None ->
-  step14 colflow dense is1 is2 if1 st (i, it) = Hang ->
-  dense = false /\
-  exists n stale si ssz,
-    fst_s colflow it = GSpan n /\ st_stale st = Some stale /\
-    get_placement (snd_s colflow it) (snd_e colflow it) = Some (si, ssz) /\
-    forall fuel, stale_search colflow fuel (GSpan n) si ssz (areas (st_log st)) stale
-                              (if (si <? st_cs st)%Z then (st_cf st + 1)%Z else st_cf st) = None.
-Proof. exact (grid_hang_is_divergence colflow dense is1 is2 if1 st i it). Qed.
-Print Assumptions C12_grid_hang_is_divergence.
-Theorem C12_grid_hang_refuted :
-  grid_place 3 2 false false [it_ GAuto GAuto GAuto GAuto; it_ (GLine 1) GAuto (GSpan 2) GAuto] = Hang.
-Proof. exact grid_hang_refuted. Qed.
-Print Assumptions C12_grid_hang_refuted.
-Theorem C12_grid_unbound_first_i : grid_place 3 2 false false [it_ (GLine 1) GAuto (GSpan 2) GAuto] = CrashUnbound.
-Proof. exact grid_unbound_first_i. Qed.
-Print Assumptions C12_grid_unbound_first_i.
 
 (* two different items share a cell only if both are placed by line numbers on both axes *)
 Theorem C12_grid_no_overlap (tcols trows : Z) (colflow dense : bool) (items : list item)
@@ -212,10 +191,11 @@ Theorem C12_grid_row_major_order (tcols trows : Z) (colflow : bool) (items : lis
     (fst (first_of colflow a) <= fst (first_of colflow c))%Z.
 Proof. exact (grid_row_major_order tcols trows colflow items l b). Qed.
 Print Assumptions C12_grid_row_major_order.
-(* ... the lexicographic (row, column) order of css-grid 8.5 is refuted: a later item is put before an earlier one *)
+(* still true of the current source (reported, not css-grid 8.5): sparse packing back-fills, so the full
+   (row, column) order is not kept; and an item locked to an otherwise empty row starts on the second column *)
 Theorem C12_grid_lexicographic_order_refuted :
   exists items pl b, valid_items items /\ grid_place 4 2 false false items = Ok (pl, b) /\
-    exists it jt (xa ya wa ha xb yb wb hb : Z),
+    exists it jt xa ya wa ha xb yb wb hb,
       nth_error items 1 = Some it /\ nth_error items 2 = Some jt /\ fully_auto it /\ fully_auto jt /\
       nth_error pl 1 = Some (Some (xa, ya, wa, ha)) /\ nth_error pl 2 = Some (Some (xb, yb, wb, hb)) /\
       ya = yb /\ (xb < xa)%Z.
@@ -225,12 +205,43 @@ Theorem C12_grid_locked_item_skips_first_cell :
   grid_place 3 2 false false [it_ GAuto GAuto (GLine 1) GAuto] = Ok ([Some (1, 0, 1, 1)%Z], (0, 3, 0, 2)%Z).
 Proof. exact grid_locked_item_skips_first_cell. Qed.
 Print Assumptions C12_grid_locked_item_skips_first_cell.
-Theorem C12_grid_negative_line_refuted :
-  exists a, grid_place 3 2 false false [it_ (GLine (-1)) GAuto (GLine 1) GAuto] = Ok ([Some a], (-2, 3, 0, 2)%Z) /\
-            a = (-2, 0, 1, 1)%Z /\ css_range 3 (GLine (-1)) GAuto = Some (3, 1)%Z /\
-            spec_lines 3 2 (it_ (GLine (-1)) GAuto (GLine 1) GAuto) a = false.
-Proof. exact grid_negative_line_refuted. Qed.
-Print Assumptions C12_grid_negative_line_refuted.
+
+(* css-grid 8.3 on the current source (`from_end=True`): the lines an item occupies on an axis given by its
+   grid-placement properties, negative integers counted from the end of the explicit grid, are the css-grid range *)
+Theorem C12_grid_negative_lines_from_end (explicit : Z) (s e : gline) : gline_valid s = true -> gline_valid e = true ->
+  get_placement (resolve_line (explicit + 1) s) (resolve_line (explicit + 1) e) = css_range explicit s e.
+Proof. exact (placement_is_css explicit s e). Qed.
+Print Assumptions C12_grid_negative_lines_from_end.
+
+(* step 1 on the items of the style sheet (grid_layout_place = negative lines resolved, then the phases): every item
+   is placed on at least 1 x 1 tracks; an item given by line numbers on both axes occupies exactly its css-grid 8.3
+   range; areas stay inside the implicit grid on the second axis and never start before its first track, so the
+   coordinates counted from the first implicit track (the indices used by track sizing and step 4) are >= 0 *)
+Theorem C12_grid_layout_placement (tcols trows : Z) (colflow dense : bool) (items : list item)
+    (pl : list (option area)) (x1 x2 y1 y2 : Z) :
+  valid_items items -> grid_layout_place tcols trows colflow dense items = Ok (pl, (x1, x2, y1, y2)) ->
+  length pl = length items /\
+  forall i it, nth_error items i = Some it ->
+    exists x y w h : Z, nth_error pl i = Some (Some (x, y, w, h)) /\ (1 <= w)%Z /\ (1 <= h)%Z /\
+      (0 <= x - x1)%Z /\ (0 <= y - y1)%Z /\ (if colflow then (y + h <= y2)%Z else (x + w <= x2)%Z) /\
+      (forall cx cw cy ch, css_range (Z.max 1 tcols) (col_s it) (col_e it) = Some (cx, cw) ->
+                           css_range (Z.max 1 trows) (row_s it) (row_e it) = Some (cy, ch) ->
+                           (x, y, w, h) = (cx, cy, cw, ch)).
+Proof. exact (layout_placement tcols trows colflow dense items pl x1 x2 y1 y2). Qed.
+Print Assumptions C12_grid_layout_placement.
+
+(* ... and auto-placed items overlap nothing, also with negative line numbers *)
+Theorem C12_grid_layout_no_overlap (tcols trows : Z) (colflow dense : bool) (items : list item)
+    (pl : list (option area)) (b : Z * Z * Z * Z) :
+  valid_items items -> grid_layout_place tcols trows colflow dense items = Ok (pl, b) ->
+  forall i j iti itj ai aj, i <> j ->
+    nth_error items i = Some iti -> nth_error items j = Some itj ->
+    nth_error pl i = Some (Some ai) -> nth_error pl j = Some (Some aj) ->
+    definite_item iti && definite_item itj = false ->
+    forall cx cy : Z, in_area ai cx cy -> in_area aj cx cy -> False.
+Proof. exact (layout_no_overlap tcols trows colflow dense items pl b). Qed.
+Print Assumptions C12_grid_layout_no_overlap.
+
 
 (* ---- track sizing: px, percentage and fr tracks, definite container *)
 Theorem C12_tracks_fuel (ts : list track) (box gap : Q) (stretch : bool) :
